@@ -1,5 +1,6 @@
 """C09 — anchor ids are unique within each built page."""
 import itertools
+import json
 import re
 import sys
 import unicodedata
@@ -129,6 +130,11 @@ class C09(core.PropertyCheck):
             yield {"kind": "text", "titles": titles, "labels": [rng.choice(["a", "a", "b", "a-1"]) for _ in range(rng.randint(0, 4))]}
 
     def shrink_candidates(self, case):
+        if case["kind"] == "giza":
+            for i in range(len(case["titles"])):
+                if len(case["titles"]) > 1:
+                    yield {**case, "titles": case["titles"][:i] + case["titles"][i + 1:]}
+            return
         if case["kind"] == "titled":
             for i in range(len(case["secs"])):
                 if len(case["secs"]) > 1:
@@ -263,7 +269,27 @@ class C09(core.PropertyCheck):
             ids.append(name)
         return pages, ids
 
+    def run_giza(self, case):
+        """a real project: index.txt includes the page generated from a steps YAML file with the given titles"""
+        from pathlib import Path
+        from snooty.util_test import make_test
+        docs = []
+        for i, t in enumerate(case["titles"]):
+            docs.append(f"title: {json.dumps(t, ensure_ascii=False)}\nref: r{i}\ncontent: |\n  Body {i}.\n")
+        files = {Path("snooty.toml"): 'name = "c09"\n',
+                 Path("source/index.txt"): "Title\n=====\n\n.. include:: /includes/steps/test.rst\n",
+                 Path("source/includes/steps-test.yaml"): "---\n".join(docs) + "...\n"}
+        try:
+            with make_test(files) as result:
+                hs, ts, fs = collect(result.pages[n.FileId("index.txt")].ast)
+        except Exception as e:
+            return {"exc": type(e).__name__, "msg": str(e)[:200]}
+        return {"exc": None, "pages": [{"page": "index.txt", "headings": hs, "targets": ts, "footnotes": fs}],
+                "bases": [{"headings": [], "targets": [], "footnotes": 0}]}
+
     def run_impl(self, case):
+        if case["kind"] == "giza":
+            return self.run_giza(case)
         pages, ids = self.build_pages(case)
         by = {str(p.fileid): p for p in pages}
         # base ids as the handlers will see them (after include expansion the order is document order)
@@ -304,7 +330,7 @@ class C09(core.PropertyCheck):
 
     # ---- model ----
     def model_request(self, case):
-        if case["kind"] in ("repl", "titled"):
+        if case["kind"] in ("repl", "titled", "giza"):
             return None
         b = self.bases(case)
         words = sorted({c for pg in b for s in pg["headings"] + pg["targets"] for c in s})
@@ -350,6 +376,23 @@ class C09(core.PropertyCheck):
                             return f"first occurrence of {base!r} in {cat} got {got!r} on {p['page']}: {p[cat]}"
                         seen.add(base)
         return None
+
+    def extra_checks(self, tier, rng):
+        """headings generated from giza YAML (steps): titles without any ASCII letter, titles starting with digits, repeated
+        titles - through a real Project build (which starts its own process pool, so these run here and not in the case pool)"""
+        pool = ["123", "2024", "???", "日本語", "2.0 release", "Intro", "intro", "Step one", "1", "é"]
+        viol, n_ = [], 0
+        for _ in range(8 if tier == "quick" else 60):
+            case = {"kind": "giza", "titles": [rng.choice(pool) for _ in range(rng.randint(1, 4))]}
+            impl = self.run_giza(case)
+            n_ += 1
+            if impl["exc"]:
+                continue   # totality is C02's / C18's business
+            d = self.oracle(case, impl)
+            if d:
+                viol.append({"case": case, "impl": impl, "desc": d, "key": self.finding_key(case, impl, d)})
+                break
+        return viol, {"giza_heading_projects": n_}
 
     def finding_key(self, case, impl, desc):
         return re.sub(r" on .*", "", desc).split(":")[0]
